@@ -11,4 +11,8 @@ GTier == IOEnv.DT_TIER
 Emit == LET R == CaseRecs(dt) IN
         /\ Assert(AllLaws(dt, R), <<"the oracle breaks its own laws on", dt>>)
         /\ PrintT(<<"DT", ToJson([dt |-> dt, cases |-> SetToSeq(R)])>>)
+
+(* C02: the value set of every datatype with the JSON value each member must be exported as *)
+EmitVS == /\ Assert(RoundTripLaw(dt), <<"the round trip law fails in the model for", dt>>)
+          /\ PrintT(<<"VS", ToJson([dt |-> dt, vals |-> SetToSeq({[v |-> v, j |-> Export(dt, v)] : v \in VS(dt)})])>>)
 =============================================================================
